@@ -57,8 +57,25 @@ class Observer:
     def rejected(self, p, att, r):
         pass
 
+    def parent_wf(self, p):
+        """C04 is about PRESERVATION: only a well-formed input obliges the output to be well formed (at depth 2 the
+        input can be the ill-formed result of a recorded finding)"""
+        k = id(p)
+        if not hasattr(self, "_pwf"):
+            self._pwf = {}
+        if k not in self._pwf:
+            try:
+                pj, _ = export_ir.export(p)
+                self._pwf[k] = (p, self.wf(pj))
+            except export_ir.ExportError:
+                self._pwf[k] = (p, True)
+        return self._pwf[k][1]
+
     def accepted(self, p, att, p2, hist):
         c = self.rec["counts"]
+        if hist and not self.parent_wf(p):
+            c["input-not-wf(skipped)"] = c.get("input-not-wf(skipped)", 0) + 1
+            return
         try:
             pj2, _ = export_ir.export(p2)
         except export_ir.ExportError:
